@@ -519,13 +519,16 @@ func (c *Ctx) Select(a, i *Term) *Term {
 	if a.Op == "constarr" {
 		return a.Args[0]
 	}
-	if a.Op == "ite" && c.selDepth < 6 {
-		// distribute the read over a merged heap: exposes select-over-store
-		// simplifications and the row terms quantified facts are attached to
+	if a.Op == "ite" && c.selDepth < 3 {
+		// distribute the read over a merged heap when that exposes a
+		// select-over-store simplification in at least one branch
 		c.selDepth++
 		x, y := c.Select(a.Args[1], i), c.Select(a.Args[2], i)
 		c.selDepth--
-		return c.Ite(a.Args[0], x, y)
+		plain := func(r, arr *Term) bool { return r.Op == "select" && r.Args[0] == arr && r.Args[1] == i }
+		if !(plain(x, a.Args[1]) && plain(y, a.Args[2])) {
+			return c.Ite(a.Args[0], x, y)
+		}
 	}
 	return c.mk(&Term{Op: "select", Args: []*Term{a, i}, Sort: a.Sort.Elem})
 }
